@@ -86,8 +86,8 @@ def run(ctx):
                          'skipped under a condition (e.g. "table not known yet") is acknowledged data silently dropped, because '
                          'the rewritten manifest need not keep the order of the live log')
             nxt = {c.bb for c in b.calls if c.bb is not None and re.search(r'Iterator::next$', c.fn or '')}
-            MUST = {'AddRowSet': [r'HashMap::<.*>::insert$'], 'AddDV': [r'HashMap::<.*>::insert$'],
-                    'DeleteRowSet': [r'HashMap::<.*>::remove$'], 'DeleteDV': [r'HashMap::<.*>::remove$'],
+            MUST = {'AddRowSet': [r'(Hash|BTree)Map::<.*>::insert$'], 'AddDV': [r'(Hash|BTree)Map::<.*>::insert$'],
+                    'DeleteRowSet': [r'(Hash|BTree)Map::<.*>::remove$'], 'DeleteDV': [r'(Hash|BTree)Map::<.*>::remove$'],
                     'CreateTable': [r'apply_create_table$', r'Vec::<.*>::push$'],
                     'DropTable': [r'apply_drop_table$', r'Vec::<.*>::push$']}
             errs = b.error_exit_blocks()
@@ -119,7 +119,7 @@ def run(ctx):
                 emit.setdefault(bd.root, set()).add(var)
     # DROP TABLE retires the row-sets inside commit_changes (arm of EpochOp::DropTable), as manifest records: the same pairing there
     CCM = SEC + 'version_manager::VersionManager::commit_changes_with_custom_manifest::{closure#0}'
-    cb = prog.body(CCM)
+    cb = prog.inlined(CCM)
     if ctx.anchor(R4, CCM, cb is not None):
         MOP = SEC + 'manifest::ManifestOperation'
         for i, bl in enumerate(cb.blocks):
